@@ -38,7 +38,8 @@ META = dict(
                "to /repo (differential; reach printed in the histogram); completeness of the defect predicates is "
                "EMPIRICAL (every explored history on which the model deviates from direct application is in a listed "
                "class; that the partial class contains no defect event is exercised by the genclean campaign); memfs as "
-               "remote and buffer (C01); Go map iteration = some permutation; a failing remote call has no effect; "
+               "remote and buffer (C01); Go map iteration = some permutation; a failing remote call (Remove, RemoveAll, "
+               "MkdirAll, Writer, and Write / Close on the remote's writers) has no effect beyond what was written before it; "
                "fshelper.Copy's goroutine walk modelled sequentially (its outcome after an error is kept out of the bulk campaigns). A failed Commit leaves an order-dependent "
                "remote: between a failed Commit and the next successful one remote-dependent answers are not compared.",
     technique="Lean 4 proof (overlay + journal invariants over histories through the C01 refinement; Commit loops as "
@@ -74,8 +75,9 @@ def run(ctx):
     except RuntimeError as e:
         ctx.fatal(str(e))
     ctx.assumptions += [
-        "the remote and the buffer are memory filespaces (property C01); a failing remote call has no effect and is one of "
-        "Remove / RemoveAll / MkdirAll / Writer (the calls of Commit that can report an error)",
+        "the remote and the buffer are memory filespaces (property C01); a failing remote call is one of Remove / RemoveAll "
+        "/ MkdirAll / Writer (no effect) or a Write / Close on a writer the remote handed out (a failing Write writes "
+        "nothing, a failing Close is reported after the data was written)",
         "Go map iteration is some permutation of the keys (the model's Commit takes the four orders as parameters)",
         "the goroutine walk of fshelper.Copy performs the same callbacks as the sequential walk of the model when none "
         "fails; failing directory copies onto existing buffer children are not generated in bulk",
